@@ -189,8 +189,6 @@ theorem pipe_labels_injective (U : Nat → Bytes) (hU : Function.Injective U) (s
       (∀ n ∈ nodesOf qs, (∃ v, n = some (.bnString j v)) ∨ ∃ k, σ n = U k) :=
   Proofs.C18.pipe_labels U hU s hI j hj qs hcol
 
---NONVACUITY-LABELS
-
 /-! ## A triples-only target -/
 
 /-- The property as stated: a triples-only target receives the dataset *restricted to the default graph*. -/
@@ -339,5 +337,134 @@ theorem pipe_ttl_preserves_partial (turtle : Codec) (P : List (Quad (List Nat)) 
 /-- RDF/JSON target (`--out-type rj`): instance for the codec of `Model.RdfJson` (C01RJ). -/
 theorem pipe_rdfjson_preserves_partial (rdfjson : Codec) (P : List (Quad (List Nat)) → Prop) :
     pipe_codec_preserves rdfjson P := pipe_codec_preserves_partial rdfjson P
+
+/-! ## Non-vacuity: concrete objects satisfying the hypotheses -/
+
+namespace Witness
+
+/-- process state after `blanknodes.NewStringFactory()` (the decoder's factory is `strf 0`) -/
+def s0 : State := (step driverU (init 0) .newStringFactory).1
+
+theorem s0_inv : C14.Inv s0 := Proofs.C14.step_inv driverU (Proofs.C14.inv_init 0) .newStringFactory
+
+/-- a Turtle-like source: the labelled node `_:x` and two anonymous nodes, `_:x` and one anonymous node
+    occurring twice, one of them as a graph name -/
+def stmts : List (Quad Node) :=
+  [ ⟨.bnode (some (.bnString 0 (BN.asc "x"))), .iri (RdfModel.asc "http://e/p"), .bnode (some (.bn 0 1)), none⟩,
+    ⟨.bnode (some (.bn 0 2)), .iri (RdfModel.asc "http://e/p"), .bnode (some (.bnString 0 (BN.asc "x"))),
+      some (.bnode (some (.bn 0 1)))⟩ ]
+
+theorem driverU_head (k : Nat) : (driverU k).head? = some 60 := by
+  have : BN.asc "<U" = [60, 85] := by decide
+  simp [driverU, this]
+
+theorem stmts_hcol : ∀ v, some (.bnString 0 v) ∈ nodesOf stmts → ∀ k, v ≠ driverU k := by
+  intro v hv k h
+  have hx : v = BN.asc "x" := by
+    simp [stmts, nodesOf, quadNodes, termNodes] at hv
+    exact hv
+  have h1 := driverU_head k
+  rw [← h, hx] at h1
+  revert h1; decide
+
+/-- the hypotheses of `pipe_labels_injective` hold for `driverU`, `s0`, factory 0, `stmts` … -/
+example : Function.Injective driverU ∧ C14.Inv s0 ∧ 0 < s0.strfs.length ∧
+    (∀ v, some (.bnString 0 v) ∈ nodesOf stmts → ∀ k, v ≠ driverU k) :=
+  ⟨C14.driverU_injective, s0_inv, by decide, stmts_hcol⟩
+
+/-- … and this is what the model (and the driver) computes: `_:x` keeps its label, the anonymous nodes get the
+    first and second UUID of the process, consistently. -/
+example :
+    (pipeProvider driverU s0 (some (.strf 0))).2 = some (.pass 0 (.uuid 0)) ∧
+    (labelQuads driverU (.pass 0 (.uuid 0)) (pipeProvider driverU s0 (some (.strf 0))).1 stmts).2 =
+      some [ ⟨.bnode (BN.asc "x"), .iri (RdfModel.asc "http://e/p"), .bnode (BN.asc "<U0>"), none⟩,
+             ⟨.bnode (BN.asc "<U1>"), .iri (RdfModel.asc "http://e/p"), .bnode (BN.asc "x"), some (.bnode (BN.asc "<U0>"))⟩ ] := by
+  decide
+
+/-- UUID texts for the composition theorems: `u`, `uu`, `uuu`, … (pairwise distinct, well-formed labels) -/
+def U (k : Nat) : Bytes := List.replicate (k + 1) 0x75
+
+theorem U_inj : Function.Injective U := by
+  intro a b h
+  have := congrArg List.length h
+  simp [U] at this
+  exact this
+
+theorem U_ok (k : Nat) : labelOK Gen.nquads (U k) = true := by
+  have h1 : inRanges Gen.nquads.pnCharsU 0x75 = true := by decide
+  have h2 : inRanges Gen.nquads.pnChars 0x75 = true := by decide
+  simp only [U, List.replicate_succ, labelOK, h1, Bool.true_or, Bool.true_and, Bool.and_eq_true, List.all_eq_true]
+  refine ⟨fun x hx => ?_, ?_⟩
+  · rw [List.eq_of_mem_replicate hx]; simp [h2]
+  · cases hk : (List.replicate k 0x75).getLast? with
+    | none => rfl
+    | some z =>
+      have hz : z ∈ List.replicate k 0x75 := List.mem_of_getLast? hk
+      simp only
+      rw [List.eq_of_mem_replicate hz]; exact h2
+
+/-- the source dataset over its two blank nodes; node 0 is `_:x`, node 1 is anonymous -/
+def node : Fin 2 → Node
+  | 0 => some (.bnString 0 (BN.asc "x"))
+  | 1 => some (.bn 0 1)
+
+def p : Term (Fin 2) := .iri (RdfModel.asc "http://example.org/p")
+
+def quads : List (Quad (Fin 2)) :=
+  [ ⟨.bnode 0, p, .lit [0x61, 0x22, 0x0a, 0xe9] xsdString none, some (.iri (RdfModel.asc "http://example.org/g"))⟩,
+    ⟨.bnode 1, p, .bnode 0, some (.bnode 1)⟩ ]
+
+theorem node_inj : Function.Injective node := by
+  intro a b h
+  match a, b with
+  | 0, 0 => rfl
+  | 1, 1 => rfl
+  | 0, 1 => simp [node] at h
+  | 1, 0 => simp [node] at h
+
+theorem quads_wf : ∀ q ∈ quads, WFQuad (fun _ => true) q := by
+  intro q hq
+  simp only [quads, List.mem_cons, List.not_mem_nil, or_false] at hq
+  rcases hq with rfl | rfl
+  · exact ⟨trivial, ⟨C01.Witness.scalars _ (by decide), rfl⟩,
+      ⟨C01.Witness.scalars _ (by decide), ⟨C01.Witness.scalars _ (by decide), rfl⟩, by decide⟩,
+      fun g hg => by cases hg; exact ⟨C01.Witness.scalars _ (by decide), rfl⟩⟩
+  · exact ⟨trivial, ⟨C01.Witness.scalars _ (by decide), rfl⟩, trivial, fun g hg => by cases hg; trivial⟩
+
+theorem quads_scope : ∀ b v, node b = some (.bnString 0 v) → labelOK Gen.nquads v = true ∧ ∀ k, v ≠ U k := by
+  intro b v h
+  match b with
+  | 0 =>
+    simp only [node, Option.some.injEq, Ident.bnString.injEq, true_and] at h
+    subst h
+    refine ⟨by decide, fun k hk => ?_⟩
+    have := congrArg List.head? hk
+    simp [U, List.replicate_succ] at this
+    revert this; decide
+  | 1 => simp [node] at h
+
+/-- the hypotheses of `pipe_nq_preserves` hold at the regenerated N-Quads tables for this dataset (quads source) -/
+example : TablesOK Gen.nquads ∧ Function.Injective U ∧ (∀ k, labelOK Gen.nquads (U k) = true) ∧ C14.Inv s0 ∧
+    0 < s0.strfs.length ∧ Function.Injective node ∧ (∀ b, b ∈ nodesOf (getQuadsDecoder .quads quads)) ∧
+    (∀ b v, node b = some (.bnString 0 v) → labelOK Gen.nquads v = true ∧ ∀ k, v ≠ U k) ∧
+    (∀ q ∈ quads, WFQuad (fun _ => true) q) :=
+  ⟨gen_nquads_ok, U_inj, U_ok, s0_inv, by decide, node_inj, by decide, quads_scope, quads_wf⟩
+
+/-- The theorem instantiated: the pipe of the witness dataset into N-Quads round-trips. -/
+theorem nq_roundtrip (ascii : Bool) :
+    ∃ σ : Fin 2 → List Nat, Function.Injective σ ∧ ∃ doc,
+      pipeNQ Gen.nquads ascii true U s0 (some (.strf 0)) .quads (quads.map (Quad.map node)) = .ok doc ∧
+      run Gen.nquads (fun _ => true) .eof true doc = (quads.map (Quad.map σ), .clean) :=
+  pipe_nq_preserves Gen.nquads gen_nquads_ok _ ascii U U_inj U_ok s0 s0_inv 0 (by decide) node node_inj .quads quads
+    (by decide) quads_scope quads_wf
+
+/-- a trivial codec (identity encoding of the statement list) round-trips: `RoundTrips` is satisfiable -/
+example : RoundTrips { encode := fun qs => some (qs.flatMap (fun _ => [0])), decode := fun _ => some [] }
+    (fun qs => qs = []) := by
+  intro qs h
+  subst h
+  exact ⟨[], [], rfl, rfl, id, by intro a ha; simp [nodesOf] at ha, by simp⟩
+
+end Witness
 
 end RdfModel.C18
